@@ -388,9 +388,14 @@ seg_labels(const gspec_t *g, const dc_result_t *r, int *lab, char *unknown, size
         if (strcmp(r->seg[i].word, "(NULL)") == 0 || is_filler_word(r->seg[i].word))
             continue;
         dc_base(r->seg[i].word, base, sizeof base);
-        for (k = 0; k < g->nwords; k++)
-            if (strcmp(g->words[k], base) == 0)
+        /* a grammar may name an alternate pronunciation itself: both sides are compared without the marker (the word
+         * lists in use never hold two spellings of one base form) */
+        for (k = 0; k < g->nwords; k++) {
+            char gb[48];
+            dc_base(g->words[k], gb, sizeof gb);
+            if (strcmp(gb, base) == 0)
                 break;
+        }
         if (k == g->nwords) {
             snprintf(unknown, nu, "%s", r->seg[i].word);
             return -1;
@@ -407,9 +412,12 @@ hyp_labels(const gspec_t *g, const char *hyp, int *lab, char *unknown, size_t nu
     int n = 0, k;
     snprintf(buf, sizeof buf, "%s", hyp);
     for (tok = strtok_r(buf, " ", &save); tok; tok = strtok_r(NULL, " ", &save)) {
-        for (k = 0; k < g->nwords; k++)
-            if (strcmp(g->words[k], tok) == 0)
+        for (k = 0; k < g->nwords; k++) {
+            char gb[48];
+            dc_base(g->words[k], gb, sizeof gb);
+            if (strcmp(gb, tok) == 0)
                 break;
+        }
         if (k == g->nwords) {
             snprintf(unknown, nu, "%s", tok);
             return -1;
@@ -608,6 +616,28 @@ run_dcase(const dcase_t *c)
             return -1;
         }
         nsearched += rc;
+    } else if (c->pattern == 2) {
+        /* the whole utterance in ONE full_utt call; every kind of partial result is asked for before decoder_end_utt,
+         * which searches no further frame in this mode: whatever was cached for the partial result meets the final one */
+        char when[64];
+        rc = decoder_process_int16(D, ZEROS, nsamp, 0, 1);
+        if (rc < 0) {
+            mc_viol("C03/process-failed", cd, "decoder_process_int16(full_utt) returned %d", rc);
+            return -1;
+        }
+        nsearched += rc;
+        dc_collect(D, &R);
+        snprintf(when, sizeof when, "partial result after the full-utterance call (%d frames)", nsearched);
+        if (P_C03 && check_c03(&R, nsearched, cd, when) < 0)
+            goto out;
+        if (P_C01 && check_c01(g, &R, 0, cd, when) < 0)
+            goto out;
+        if ((P_C11 || P_C12) && nsearched > 0 && check_lattice(g, &R, nsearched, cd, when) < 0)
+            goto out;
+        if (P_C04 && nsearched > 0 && check_c04(&R, nsearched, cd, when) < 0)
+            goto out;
+        if (P_C14 && nsearched > 0 && check_c14(&R, cd, when) < 0)
+            goto out;
     } else {
         /* frame-sized chunks, partial result after every chunk */
         size_t off = 0;
@@ -831,7 +861,7 @@ main(int argc, char **argv)
             if (strcmp(rts[i], ROUTE_NAME[k]) == 0)
                 ROUTES[NR++] = k;
     }
-    NPAT = atoi(mc_arg(argc, argv, "--patterns", "2"));
+    NPAT = atoi(mc_arg(argc, argv, "--patterns", "3"));
     NUTT = utt_count();
     unlink(DICT_PATH);
 
